@@ -209,6 +209,17 @@ def _extremum(it, s, kind):
     if s.ek not in ('int', 'real'):
         raise Unsupported('%s of a sequence of %s' % (kind, s.ek))
     ops._raise_if(s.n <= 0, 'ValueError')
+    # an arithmetic progression (a slice of list(range(..))): the extremum is the first / last element, no quantifier needed
+    jj = z3.Int('j!mono')
+    try:
+        d = z3.simplify(z3.Select(s.arr, jj + 1) - z3.Select(s.arr, jj))
+    except z3.Z3Exception:
+        d = None
+    if d is not None and (z3.is_int_value(d) or z3.is_rational_value(d)):
+        step = d.as_long() if z3.is_int_value(d) else (1 if d.numerator_as_long() > 0 else (-1 if d.numerator_as_long() < 0 else 0))
+        if step != 0:
+            first, last = z3.simplify(z3.Select(s.arr, s.off)), z3.simplify(z3.Select(s.arr, s.off + s.n - 1))
+            return ops.mk(first if (kind == 'min') == (step > 0) else last, s.ek)
     # the extremum is a function of the sequence: the same sequence always gives the same constants
     key = '%s!%d.%d.%d' % (kind, s.arr.get_id(), z3.simplify(s.off).get_id(), z3.simplify(s.n).get_id())
     m = ops.mk(z3.Const(key, ops.I if s.ek == 'int' else ops.R), s.ek)
